@@ -1,13 +1,13 @@
 (* Proofs/GenOk_Src_C06_state.v -- SRCA: source tie for C06, pickling.  The definitions regenerated from the text of
    netaddr/ip/sets.py (Gen/pysrc_sets_state_gen.v: IPSet.__getstate__, __setstate__) and of IPNetwork.__getstate__
-   (netaddr/ip/__init__.py, Gen/pysrc_sets_ip_gen.v) equal the hand-written model Sets.set_getstate / set_setstate.
+   (netaddr/ip/__init__.py, Gen/pysrc_ctor_gen.v) equal the hand-written model Sets.set_getstate / set_setstate.
    A Python tuple of ints returned by a method is a Coq list ([value; prefixlen; version]); the model has triples.
    __setstate__ maps the range-checking constructor IPNetwork((value, prefixlen), version=version) over the state (a
    generator expression consumed at once by dict.fromkeys: py_map_o, the first exception wins), then builds the dict; the
    model builds the dict element by element from the right: equal because adding keys to a dict is idempotent
    (GenOk_Src_C20.union_of_list with the transitivity of key()).  No hypotheses. *)
 From NV Require Import Base.Tac Base.PyVal Model.Ip Model.Span Model.Sets Model.SrcPrelude Model.SrcPreludeSets
-  Gen.pysrc_sets_ip_gen Gen.pysrc_sets_state_gen Proofs.C02 Proofs.GenOk_Src_C20.
+  Gen.pysrc_ctor_gen Gen.pysrc_sets_state_gen Proofs.C02 Proofs.GenOk_Src_C20.
 From NV Require Proofs.NetDen Proofs.C06_inv.
 Import ListNotations.
 Open Scope Z_scope.
